@@ -120,44 +120,80 @@ def ref_amplitudes(case, members=None):
     return out
 
 
-def build(case, members=None, counts=None):
-    """The accessor object (LoadHistogram / LoadCollective) of the real implementation."""
+def layout(case):
+    """Optional index / dtype layout of the pandas object (D11-3): {"elem": [id per member], "elem_pos": "first"|"last",
+    "concat_at": k, "count_dtype": "int64", "index": [label per member]}."""
+    return case.get("layout") or {}
+
+
+def _count_array(case, counts):
+    if layout(case).get("count_dtype") == "int64" and all(float(c).is_integer() and abs(c) < 2.0 ** 53 for c in counts):
+        return np.asarray([int(c) for c in counts], dtype=np.int64)    # what range_histogram without a cycles column returns
+    return np.asarray(counts, dtype=np.float64)
+
+
+def build(case, sel=None, counts=None):
+    """The accessor object (LoadHistogram / LoadCollective) of the real implementation for the members `sel` (indices,
+    None = all) with `counts` (None = the case's).  The load scale ALWAYS goes through the code's own `scale()`."""
     pl()
-    members = case["members"] if members is None else members
-    counts = case["counts"] if counts is None else counts
+    m_all = len(case["members"])
+    whole = sel is None
+    sel = list(range(m_all)) if sel is None else list(sel)
+    members = [case["members"][i] for i in sel]
+    unit = bool(case.get("unit_cycles")) and counts is None
+    if counts is None:
+        counts = [case["counts"][i] for i in sel]
     kind = case["kind"]
     f = float(case.get("scale", 1.0))
     loc = case.get("loc", "mid")
+    lay = layout(case)
+    k = lay.get("concat_at")
+    pieces = [list(range(len(members)))]
+    if whole and k and 0 < k < len(members):       # two pandas objects put together with pd.concat (duplicated labels allowed)
+        pieces = [list(range(k)), list(range(k, len(members)))]
     if kind in ("range", "range_mean", "from_to"):
-        cnt = np.asarray(counts, dtype=np.float64)
-        if kind == "range":
-            idx = pd.IntervalIndex.from_arrays([m[0] for m in members], [m[1] for m in members], name="range")
-        elif kind == "range_mean":
-            idx = pd.MultiIndex.from_arrays([
-                pd.IntervalIndex.from_arrays([m[0] for m in members], [m[1] for m in members]),
-                pd.IntervalIndex.from_arrays([m[2] for m in members], [m[3] for m in members])], names=["range", "mean"])
-        else:
-            idx = pd.MultiIndex.from_arrays([
-                pd.IntervalIndex.from_arrays([m[0] for m in members], [m[1] for m in members]),
-                pd.IntervalIndex.from_arrays([m[2] for m in members], [m[3] for m in members])], names=["from", "to"])
-        acc = pd.Series(cnt, index=idx, name="cycles").load_collective
-        if f != 1.0:
-            if kind == "range":   # scale() needs a MultiIndex; a one-level histogram is scaled by its class limits
-                idx = pd.IntervalIndex.from_arrays([m[0] * f for m in members], [m[1] * f for m in members], name="range")
-                acc = pd.Series(cnt, index=idx, name="cycles").load_collective
+        def one(pos):
+            mem = [members[i] for i in pos]
+            iv = lambda a, b: pd.IntervalIndex.from_arrays([x[a] for x in mem], [x[b] for x in mem])
+            if kind == "range":
+                levels, names = [iv(0, 1)], ["range"]
+            elif kind == "range_mean":
+                levels, names = [iv(0, 1), iv(2, 3)], ["range", "mean"]
             else:
-                acc = acc.scale(f)
+                levels, names = [iv(0, 1), iv(2, 3)], ["from", "to"]
+            if "elem" in lay:
+                el = pd.Index([lay["elem"][sel[i]] for i in pos], dtype=np.int64)
+                if lay.get("elem_pos", "first") == "first":
+                    levels, names = [el] + levels, ["element_id"] + names
+                else:
+                    levels, names = levels + [el], names + ["element_id"]
+            if len(levels) == 1:
+                idx = levels[0].rename(names[0])
+            else:
+                idx = pd.MultiIndex.from_arrays(levels, names=names)
+            return pd.Series(_count_array(case, [counts[i] for i in pos]), index=idx, name="cycles")
+        ser = one(pieces[0]) if len(pieces) == 1 else pd.concat([one(pc) for pc in pieces])
+        acc = ser.load_collective
+        if f != 1.0:
+            acc = acc.scale(f)
         if loc == "left":
             acc = acc.use_class_left()
         elif loc == "right":
             acc = acc.use_class_right()
         return acc
-    if kind == "collective":
-        df = pd.DataFrame({"from": [float(m[0]) for m in members], "to": [float(m[1]) for m in members]})
-    else:
-        df = pd.DataFrame({"range": [float(m[0]) for m in members], "mean": [float(m[1]) for m in members]})
-    if counts is not None and not case.get("unit_cycles"):
-        df["cycles"] = np.asarray(counts, dtype=np.float64)
+
+    def one(pos):
+        mem = [members[i] for i in pos]
+        if kind == "collective":
+            df = pd.DataFrame({"from": [float(x[0]) for x in mem], "to": [float(x[1]) for x in mem]})
+        else:
+            df = pd.DataFrame({"range": [float(x[0]) for x in mem], "mean": [float(x[1]) for x in mem]})
+        if not unit:
+            df["cycles"] = _count_array(case, [counts[i] for i in pos])
+        if "index" in lay:
+            df.index = pd.Index([lay["index"][sel[i]] for i in pos], name="blk")
+        return df
+    df = one(pieces[0]) if len(pieces) == 1 else pd.concat([one(pc) for pc in pieces])
     acc = df.load_collective
     if f != 1.0:
         acc = acc.scale(f)
@@ -185,6 +221,113 @@ def with_counts(case, counts):
 
 def fnum(x):
     return float(np.asarray(x, dtype=np.float64).reshape(-1)[0]) if np.ndim(x) else float(x)
+
+
+VARIANTS = ["whole", "a", "b", "perm", "t", "x2"]
+
+
+def variant(case, name):
+    """A collective derived from the case: (case', sel) or None when it does not exist.  whole; a / b = the members
+    before / from `cut`; perm = permuted members; t = counts x t; x2 = twice the load level."""
+    m = len(case["members"])
+    cut = case.get("cut", 0)
+    if name == "whole":
+        return case, None
+    if name == "a":
+        return (case, list(range(cut))) if 0 < cut < m else None
+    if name == "b":
+        return (case, list(range(cut, m))) if 0 < cut < m else None
+    if name == "perm":
+        p = case.get("perm")
+        return (case, list(p)) if p and sorted(p) == list(range(m)) and list(p) != list(range(m)) else None
+    if name == "t":
+        t = float(case.get("t", 2.0))
+        return (with_counts(case, [t * n for n in eff_counts(case)]), None) if t > 0 and t != 1.0 else None
+    if name == "x2":
+        return dict(case, scale=2.0 * float(case.get("scale", 1.0))), None
+    raise ValueError(name)
+
+
+def vdata(case, name):
+    """(amplitudes, counts) of a variant by the harness' own arithmetic, or None."""
+    v = variant(case, name)
+    if v is None:
+        return None
+    vc, sel = v
+    amps, counts = ref_amplitudes(vc), eff_counts(vc)
+    if sel is not None:
+        amps, counts = [amps[i] for i in sel], [counts[i] for i in sel]
+    return amps, counts
+
+
+def vbuild(case, name):
+    vc, sel = variant(case, name)
+    return build(vc, sel)
+
+
+def usable(case, name):
+    d = vdata(case, name)
+    return d is not None and not degenerate(*d)
+
+
+def pre_name(case):
+    """The collective that is pushed through the held accessor objects BEFORE the case's own collective (object state:
+    every case is a call sequence).  Corpus cases without the key get the default preference."""
+    want = case.get("pre", "a")
+    if want is None or want == "none":
+        return None
+    for name in [want, "a", "b", "x2"]:
+        if name != "whole" and usable(case, name):
+            return name
+    return None
+
+
+SEQ_OPS = ["lm", "gc", "eds", "gnd", "flf", "dmg:own", "dmg:o", "dmg:e", "dmg:h"]
+OBJ_OPS = {"e": ("lm", "gc", "eds", "gnd", "flf"), "h": ("lm", "gc", "eds", "flf"), "f": ("dmg:own", "dmg:o", "dmg:e", "dmg:h")}
+
+
+def seq_plan(case):
+    """The calls of case['seq'] that exist for this case: [(op, variant name, amplitudes, counts)]."""
+    out = []
+    for op, name in case.get("seq") or []:
+        if op in SEQ_OPS and name in VARIANTS and usable(case, name):
+            amps, counts = vdata(case, name)
+            out.append((op, name, amps, counts))
+    return out
+
+
+def make_obj(kind, wc):
+    return {"e": lambda: wc.gassner_miner_elementary, "h": lambda: wc.gassner_miner_haibach, "f": lambda: wc.fatigue}[kind]()
+
+
+def call(obj, op, lc, N):
+    """One method call on an accessor object; the returned number."""
+    if op == "lm":
+        return fnum(obj.lifetime_multiple(lc))
+    if op == "gc":
+        return fnum(obj.gassner_cycles(lc))
+    if op == "eds":
+        return fnum(obj.effective_damage_sum(lc))
+    if op == "gnd":
+        return fnum(obj.gassner(lc).ND)
+    if op == "flf":
+        return fnum(obj.finite_life_factor(N))
+    v = op.split(":")[1]
+    o = obj if v == "own" else getattr(obj, {"o": "miner_original", "e": "miner_elementary", "h": "miner_haibach"}[v])()
+    return float(o.damage(lc).sum())
+
+
+STATE_KEYS = ["k_1", "k_2", "SD", "ND", "TN", "TS", "failure_probability"]
+
+
+def state_of(obj):
+    """What the accessor object holds: the validated curve."""
+    ser = obj.to_pandas()
+    return [float(ser[k]) for k in STATE_KEYS]
+
+
+def same(x, y):
+    return x == y or (x != x and y != y)
 
 
 # ------------------------------------------------------------------ generators
@@ -279,6 +422,8 @@ def gen_counts(rng, amps, m):
 
 def gen_curve(rng, amps, counts):
     k1 = rng.choice(K1S) if rng.random() < 0.7 else round(rng.uniform(1.0, 15.0), 3)
+    if rng.random() < 0.04:
+        k1 = rng.choice([0.75, 0.625])      # accepted by the code; the ordering clause does not apply (D11-5), the others do
     mode = rng.choice(["inf", "inf", "absent", "k1", "haibach", "other"])
     k2 = {"inf": "inf", "absent": "absent", "k1": k1, "haibach": 2.0 * k1 - 1.0,
           "other": round(k1 + rng.uniform(0.0, 20.0), 3)}[mode]
@@ -322,7 +467,39 @@ def random_case(rng, tier):
     perm = list(range(m))
     rng.shuffle(perm)
     case["perm"] = perm
-    case["tags"] = {"shape": shape, "pattern": pattern, "sd": label, "k2": mode}
+    # --- index / dtype layout of the pandas object (all layouts are what the pipeline itself produces)
+    lay = {}
+    r = rng.random()
+    if kind in ("range", "range_mean", "from_to") and m >= 2 and r < 0.2:
+        ids = [rng.choice([1, 2]) for _ in range(m)]
+        ids[0], ids[-1] = 1, 2
+        if rng.random() < 0.5:
+            ids.sort()
+        lay["elem"] = ids
+        lay["elem_pos"] = rng.choice(["first", "first", "last"])
+    elif m >= 2 and r < 0.35:
+        k = rng.randint(1, m - 1)
+        lay["concat_at"] = k
+        if kind == "range" and rng.random() < 0.6:      # the same classes twice (pd.concat([h1, h2]))
+            for i in range(k, m):
+                case["members"][i] = list(case["members"][(i - k) % k])
+    elif kind in ("collective", "collective_rm") and r < 0.55:
+        lay["index"] = [rng.choice([1, 3, 7, 7, 12]) for _ in range(m)]
+    if rng.random() < 0.3 and not case.get("unit_cycles"):
+        lay["count_dtype"] = "int64"
+        case["counts"] = [float(int(c)) for c in case["counts"]]
+    if lay:
+        case["layout"] = lay
+    # --- object state: a collective that goes through the held accessor objects first, and explicit call sequences
+    case["pre"] = rng.choice(["a", "a", "b", "b", "x2", "t", "perm", "none"])
+    if rng.random() < 0.15:
+        case["seq"] = [[rng.choice(SEQ_OPS), rng.choice(VARIANTS)] for _ in range(rng.randint(2, 6))]
+    # --- a second curve: data frame of curves (df.fatigue.damage)
+    if rng.random() < 0.2:
+        case["curve2"] = dict(curve, k_1=rng.choice([3.0, 4.0, 6.5]), SD=curve["SD"] * rng.choice([0.5, 2.0, 1.25]),
+                              ND=rng.choice(NDS))
+    case["tags"] = {"shape": shape, "pattern": pattern, "sd": label, "k2": mode,
+                    "layout": "+".join(sorted(lay)) or "flat"}
     return case
 
 
@@ -343,8 +520,28 @@ def exhaustive_cases(tier):
                                       (5.0, "inf", {"TN": 4.0, "failure_probability": 0.1}),
                                       (4.0, 7.0, {"TN": 3.0, "TS": 1.25, "failure_probability": 0.9})):
                     yield dict(base, counts=counts, curve=dict({"k_1": k1, "k_2": k2, "SD": sd, "ND": 1e6}, **extra),
-                               cut=m // 2, t=2.0, perm=list(reversed(range(m))),
-                               tags={"shape": "exh", "pattern": "".join(map(str, occ)), "sd": label, "k2": str(k2)})
+                               cut=m // 2, t=2.0, perm=list(reversed(range(m))), pre="a",
+                               tags={"shape": "exh", "pattern": "".join(map(str, occ)), "sd": label, "k2": str(k2), "layout": "flat"})
+
+
+def exhaustive_seq_cases(tier):
+    """Every ordered pair of calls (method x collective) on ONE object of each class: whatever a first call could leave
+    behind in the object, the second call would read it."""
+    members = [[40.0 * i, 40.0 * (i + 1)] for i in range(1, 5)]      # amplitudes 30, 50, 70, 90
+    base = {"kind": "range", "members": members, "scale": 1.0, "loc": "mid", "counts": [1000.0, 50.0, 5.0, 0.0],
+            "cut": 2, "t": 3.0, "perm": [3, 1, 0, 2], "pre": "none"}
+    curves = [{"k_1": 5.0, "k_2": 9.0, "SD": 60.0, "ND": 1e6, "TN": 4.0, "failure_probability": 0.1}]
+    if tier != "quick":
+        curves.append({"k_1": 4.0, "k_2": "inf", "SD": 50.0, "ND": 2e6})
+    names = ("whole", "a") if tier == "quick" else ("whole", "a", "x2")
+    items = [(op, name) for op in ("lm", "gc", "eds", "gnd", "dmg:own", "dmg:h") for name in names]
+    for curve in curves:
+        for x in items:
+            for y in items:
+                if (x[0].startswith("dmg")) != (y[0].startswith("dmg")):
+                    continue            # the two calls go to different objects
+                yield dict(base, curve=curve, seq=[list(x), list(y)],
+                           tags={"shape": "exh-seq", "pattern": "1110", "sd": "between", "k2": str(curve["k_2"]), "layout": "flat"})
 
 
 # ------------------------------------------------------------------ the property module
@@ -357,6 +554,12 @@ def _impl_raised(e):
     on a generated, valid input; an exception raised by a harness line itself is an infrastructure error."""
     tb = traceback.extract_tb(e.__traceback__)
     return bool(tb) and not tb[-1].filename.endswith(os.path.join("harness", "c11.py"))
+
+
+def _harness_side(e):
+    """Exceptions that are about the machinery itself (core's rule when it has one)."""
+    f = getattr(core, "_harness_side", None)
+    return f(e) if f else isinstance(e, (MemoryError, OSError, ImportError, RecursionError))
 
 
 def _work(case):
@@ -384,23 +587,42 @@ class C11(Prop):
         "PylifeVerif.C11.gassner_damage_one_native",
         "PylifeVerif.C11.gassner_curve_cycles_native",
         "PylifeVerif.C11.effective_damage_sum_bounds",
-        "PylifeVerif.C11.gassner_unrepaired_fails_empty_top_class",
-        "PylifeVerif.C11.gassner_unrepaired_infinite_below_SD",
+        "PylifeVerif.C11.effective_damage_sum_piecewise",
+        "PylifeVerif.C11.effective_damage_sum_of_collective",
+        # object state (audit D11-1): the accessor objects as a state machine, a used object answers like a fresh one
+        "PylifeVerif.C11.object_sequence_eq_fresh",
+        "PylifeVerif.C11.object_answer_independent_of_history",
+        "PylifeVerif.C11.object_gassner_damage_one_after_any_history",
+        # (gassner_unrepaired_* in Proofs/C11.lean are about the code BEFORE fix 110dd2d: documentation, not obligations)
     ] + ["PylifeVerif.Bridge." + t for t in [      # generated (translated) definitions = hand model
         "effective_damage_sum_eq", "finite_life_factor_eq"]]
-    PARTIAL = {}
+    _K1 = ("the clause 'original <= Haibach <= elementary' is stated and proved for k_1 >= 1; WoehlerCurve._validate also accepts "
+           "k_1 < 1 (no physical Woehler line), there the Haibach slope 2 k_1 - 1 is flatter than k_1 and the order of Haibach and "
+           "elementary is reversed (proved: damage_order_reversed_below_k1_one) - the clause is false for such curves, the oracle "
+           "skips it there and checks every other clause")
+    PARTIAL = {"PylifeVerif.C11.damage_order_termwise": _K1,
+               "PylifeVerif.C11.damage_order_original_le_haibach_le_elementary": _K1,
+               "PylifeVerif.C11.damage_order_native": _K1}
     RULE = ("case = (Woehler curve k_1/k_2/SD/ND with optional TN/TS/failure_probability, collective given as range / range-mean / from-to histogram with "
-            "IntervalIndex class limits or as LoadCollective data frame, cycle counts with empty classes, load scale, "
-            "class location, split point, count factor, permutation); all numbers dyadic so that class amplitudes are "
+            "IntervalIndex class limits or as LoadCollective data frame, cycle counts with empty classes, load scale applied through the collective's own scale(), "
+            "class location, split point, count factor, permutation; index / dtype layout: extra element_id level before or after the class levels, two objects "
+            "joined with pd.concat (duplicated classes), int64 counts, non-default non-unique frame index; a collective that goes through the held accessor objects "
+            "first; optional call sequence; optional second curve = data frame of curves); all numbers dyadic so that class amplitudes are "
             "exact; SD placed below / at / between / above the class amplitudes and inside an empty top class; "
-            "correspondence: per-class damage, damage sums of the three Miner variants, solidity, both lifetime "
+            "correspondence: per-class damage, damage sums of the three Miner variants, solidity (Haibach, FKM; registered accessor at every class location), both lifetime "
             "multiples, both Gassner cycle numbers, damage after applying them, Gassner-shifted curve, effective "
-            "damage sums, finite life factor - relative tolerance 1e-11 (np.power vs libm pow); non-trivial = not "
-            "degenerate, at least two occupied classes and (an empty class or classes on both sides of SD)")
+            "damage sums, finite life factor - all from ONE elementary / Haibach / fatigue object that has evaluated another collective before; call sequences "
+            "(lifetime_multiple, gassner_cycles, effective_damage_sum, gassner().ND, finite_life_factor, damage of the four variants, each on the collective, "
+            "its parts, its permutation, its count multiple, twice its load) on one object of each class against Miner.run of the model incl. the state the object holds afterwards "
+            "- relative tolerance 1e-11 (np.power vs libm pow); oracle additionally: scale() leaves its operand alone, held object = fresh object for every call of a "
+            "sequence in both orders (bit-identical), curve Series / object state / collectives unmodified, data frame of curves pairs every row with its curve; "
+            "degenerate collectives: the code's Gassner cycles are observed to be non-finite; non-trivial = not "
+            "degenerate, at least two occupied classes and (an empty class or classes on both sides of SD or a call sequence)")
     ASSUMPTIONS = [
-        "C11: the collective is observed through its accessors `amplitude` and `cycles` (LoadHistogram, LoadCollective); the model works on the list of (amplitude, cycles) pairs, the harness derives the amplitudes from the class limits independently and the oracle compares them with the accessor",
-        "C11: curves with native failure_probability in {0.025, 0.1, 0.3, 0.5, 0.9, 0.975} and scatter TN/TS (both, one, none given): damage, cycles and gassner_cycles evaluate the curve shifted to 50 % - the model imports Model/Woehler.lean `transform` (C08) for it, scipy.stats.norm.ppf is a parameter `ppf` in the theorems and a series implementation in the driver (tolerance 1e-10 on shifted curves); scalar curve (one parameter set), one collective",
-        "C11: theorems over the reals with x/0 = 0 and 0^(-k) = 0; the guards ValidCurve (SD, ND > 0), ValidColl (amplitudes, counts >= 0) and Loaded (some occupied class with positive amplitude) are exactly the inputs on which the real code does not return NaN/inf; pandas/numpy summation order and np.power rounding are not modelled (tolerance)",
+        "C11: the collective is observed through its accessors `amplitude` and `cycles` (LoadHistogram, LoadCollective); the model works on the list of (amplitude, cycles) pairs in row order - an extra element_id level, duplicated class labels, the dtype of the counts and the frame index do not enter (the Miner code pools all rows of the object; checked for these layouts); the harness derives the amplitudes from the class limits independently and the oracle compares them with the accessor after the code's own scale()",
+        "C11: curves with native failure_probability in {0.025, 0.1, 0.3, 0.5, 0.9, 0.975} and scatter TN/TS (both, one, none given): damage, cycles and gassner_cycles evaluate the curve shifted to 50 % - the model imports Model/Woehler.lean `transform` (C08) for it, scipy.stats.norm.ppf is a parameter `ppf` in the theorems and a series implementation in the driver (tolerance 1e-10 on shifted curves); the Miner accessors take one curve (Series); a data frame of curves is observed through df.fatigue.damage by the oracle only (every row with its own curve; collectives with unique labels - pandas cannot join on a non-unique index) and is not in the model",
+        "C11: theorems over the reals with x/0 = 0 and 0^(-k) = 0; the guards ValidCurve (SD, ND > 0), ValidColl (amplitudes, counts >= 0) and Loaded (some occupied class with positive amplitude) are exactly the inputs on which the real code does not return NaN/inf (for collectives that are not Loaded the code's lifetime multiples / Gassner cycles are observed to be NaN or inf - pinned by the check, model answer `degenerate`); effective_damage_sum_bounds holds over the reals for every A, the code is defined for A > 0 only (effective_damage_sum_of_collective: that is what it gets); pandas/numpy summation order and np.power rounding are not modelled (tolerance)",
+        "C11: object state: the accessor objects (gassner_miner_elementary, gassner_miner_haibach, fatigue) are modelled as a state machine whose state is the class and the validated curve (Model/Miner.lean Obj/Op/step/run); the model's step hands the state on unchanged, i.e. it SAYS the code keeps nothing between calls - that this is true of the code is not proved but checked: every case evaluates another collective on the held objects first, call sequences on one object are compared with Miner.run (answers and final state) and with fresh objects in both orders; state of the interpreter outside these objects (module globals, pandas caches) is not modelled",
         "C11: the model is the REPAIRED Miner code (tools/fixes/C11-gassner-max-occupied.diff, tools/fixes/C11-haibach-knee-at-50pct.diff); on a tree without the repair the oracle reports the finding classes gassner-*-empty-top-class / gassner-*-below-SD / gassner-haibach-native-knee",
     ]
 
@@ -427,10 +649,12 @@ class C11(Prop):
         log(("translator: " + msg) if ok else ("TRANSLATOR FAILED (broken proof obligation): " + msg))
 
     def __init__(self):
-        self.stats = {"by_kind": {}, "by_pattern": {}, "by_sd_position": {}, "by_k2": {}, "by_shape": {},
-                      "degenerate": 0, "sizes": {}, "empty_top": 0, "all_below_SD": 0, "all_above_SD": 0,
-                      "straddle_SD": 0, "amplitude_exactly_SD": 0, "scaled": 0, "by_failure_probability": {},
-                      "curve_shifted_to_50pct": 0, "knee_shifted_to_50pct": 0, "only_TN_given": 0}
+        self.stats = {"by_kind": {}, "by_pattern": {}, "by_sd_position": {}, "by_k2": {}, "by_shape": {}, "by_layout": {},
+                      "by_preloaded_collective": {}, "degenerate": 0, "sizes": {}, "empty_top": 0, "all_below_SD": 0,
+                      "all_above_SD": 0, "straddle_SD": 0, "amplitude_exactly_SD": 0, "scaled": 0,
+                      "scaled_through_scale_method": 0, "by_failure_probability": {}, "curve_shifted_to_50pct": 0,
+                      "knee_shifted_to_50pct": 0, "only_TN_given": 0, "k1_below_one": 0, "int64_counts": 0,
+                      "sequence_cases": 0, "sequence_calls": 0, "by_sequence_op": {}, "frame_of_curves": 0}
         self.exhaustive = False
         self._verdicts = {}
 
@@ -438,19 +662,27 @@ class C11(Prop):
     def generate(self, rng, tier):
         self.exhaustive = True
         self.stats["exhaustive_scope"] = ("regular range histogram with 1..%d classes: every occupancy pattern x SD below all / at "
-                                          "each class / between classes / above all x (k_1,k_2) in {(5,inf),(5,9),(3,3)} and the curves (5,inf,TN=4,pf=0.1), (4,7,TN=3,TS=1.25,pf=0.9)" % (4 if tier == "quick" else 6))
+                                          "each class / between classes / above all x (k_1,k_2) in {(5,inf),(5,9),(3,3)} and the curves (5,inf,TN=4,pf=0.1), (4,7,TN=3,TS=1.25,pf=0.9); "
+                                          "object state: every ordered pair of calls from {lifetime_multiple, gassner_cycles, effective_damage_sum, gassner().ND} x "
+                                          "{collective, its first half%s} on one Miner-elementary and one Miner-Haibach object, "
+                                          "and from {damage, miner_haibach().damage} x the same collectives on one fatigue object" % (4 if tier == "quick" else 6, "" if tier == "quick" else ", collective at twice the load"))
         for c in exhaustive_cases(tier):
             yield c
-        n = 1000 if tier == "quick" else 10000
+        for c in exhaustive_seq_cases(tier):
+            yield c
+        n = 800 if tier == "quick" else 7000
         for _ in range(n):
             yield random_case(rng, tier)
 
     def _count(self, case, amps, counts):
         s = self.stats
         tags = case.get("tags", {})
-        for key, tag in (("by_kind", case["kind"]), ("by_pattern", tags.get("pattern", "?") if tags.get("shape") != "exh" else "exh"),
-                         ("by_sd_position", tags.get("sd", "?")), ("by_k2", tags.get("k2", "?") if tags.get("shape") != "exh" else "exh"),
-                         ("by_shape", tags.get("shape", "?")), ("sizes", str(len(amps)))):
+        exh = str(tags.get("shape", "")).startswith("exh")
+        for key, tag in (("by_kind", case["kind"]), ("by_pattern", tags.get("pattern", "?") if not exh else "exh"),
+                         ("by_sd_position", tags.get("sd", "?")), ("by_k2", tags.get("k2", "?") if not exh else "exh"),
+                         ("by_shape", tags.get("shape", "?")), ("sizes", str(len(amps))),
+                         ("by_layout", "+".join(sorted(layout(case))) or "flat"),
+                         ("by_preloaded_collective", str(pre_name(case)))):
             s[key][tag] = s[key].get(tag, 0) + 1
         occ = [a for a, n in zip(amps, counts) if n > 0]
         sd = sd50(case["curve"])
@@ -462,6 +694,18 @@ class C11(Prop):
                 s["knee_shifted_to_50pct"] += 1
             if "TS" not in case["curve"]:
                 s["only_TN_given"] += 1
+        if float(case["curve"]["k_1"]) < 1.0:
+            s["k1_below_one"] += 1
+        if layout(case).get("count_dtype") == "int64":
+            s["int64_counts"] += 1
+        if "curve2" in case:
+            s["frame_of_curves"] += 1
+        plan = seq_plan(case)
+        if plan:
+            s["sequence_cases"] += 1
+            s["sequence_calls"] += len(plan)
+            for op, _n, _a, _c in plan:
+                s["by_sequence_op"][op] = s["by_sequence_op"].get(op, 0) + 1
         if degenerate(amps, counts):
             s["degenerate"] += 1
             return
@@ -477,6 +721,7 @@ class C11(Prop):
             s["amplitude_exactly_SD"] += 1
         if case.get("scale", 1.0) != 1.0:
             s["scaled"] += 1
+            s["scaled_through_scale_method"] += 1
 
     # ---------------------------------------------------------------- correspondence
     def model_lines(self, case):
@@ -485,8 +730,24 @@ class C11(Prop):
         counts = eff_counts(case)
         head = curve_tokens(c)
         body = " ".join(f"{f2h(a)} {f2h(n)}" for a, n in zip(amps, counts))
-        return [f"mn_damage {head} {body}", f"mn_miner {head} {body}",
-                f"mn_flf {f2h(c['k_1'])} {f2h(c['ND'])} {f2h(sum(counts) + 1.0)}"]
+        lines = [f"mn_damage {head} {body}", f"mn_miner {head} {body}",
+                 f"mn_flf {f2h(c['k_1'])} {f2h(c['ND'])} {f2h(sum(counts) + 1.0)}"]
+        plan = seq_plan(case)
+        if plan:            # the same call sequence on ONE model object of each class (Miner.run threads the state)
+            for kind in ("e", "h", "f"):
+                toks = []
+                for op, _name, a, n in plan:
+                    if op not in OBJ_OPS[kind]:
+                        continue
+                    coll = f"{len(a)} " + " ".join(f"{f2h(x)} {f2h(y)}" for x, y in zip(a, n))
+                    if op == "flf":
+                        toks.append(f"flf {f2h(sum(n))}")
+                    elif op.startswith("dmg:"):
+                        toks.append(f"dmg {op[4:]} {coll}")
+                    else:
+                        toks.append(f"{op} {coll}")
+                lines.append(f"mn_seq {kind} {head} " + " ".join(toks))
+        return lines
 
     def impl_all(self, cases):
         """All cases through the real code, sharded over processes; the oracle verdicts are computed in the same
@@ -494,6 +755,8 @@ class C11(Prop):
         global _WORKER
         import multiprocessing as mp
         pl()
+        # run_check sets known_classes only before ITS oracle pass; the verdicts are computed here
+        self.known_classes = {e["class"] for e in core.load_known(self.ID) if e.get("status") == "open"}
         for c in cases:
             self._count(c, ref_amplitudes(c), eff_counts(c))
         nproc = min(16, os.cpu_count() or 1, max(1, len(cases) // 40))
@@ -518,21 +781,32 @@ class C11(Prop):
             return self._verdicts[key]
         return self._oracle(case)
 
+    def _nlines(self, case):
+        return 6 if seq_plan(case) else 3
+
     def _impl_lines(self, case):
         try:
             return self._impl_lines_body(case)
         except Exception as e:
-            if _impl_raised(e):
-                return [f"error:{type(e).__name__}"] * 3
+            if _impl_raised(e) or not _harness_side(e):
+                return [f"error:{type(e).__name__}"] * self._nlines(case)
             raise
 
     def _oracle(self, case):
+        seen = self._known_seen = []
         try:
-            return self._oracle_body(case)
+            res = self._oracle_body(case)
         except Exception as e:
             if _impl_raised(e):
                 return (f"the implementation raised {type(e).__name__}: {str(e)[:200]}", "implementation-raises")
-            raise
+            if _harness_side(e):
+                raise
+            # raised in a harness line while it digests what the implementation returned (changed shape / type / index):
+            # a failure of the property on this input, not an infrastructure problem (same policy as core._oracle_safe)
+            return (f"the implementation's result cannot be interpreted: {type(e).__name__}: {str(e)[:200]}", "unexpected-result")
+        if res is None and seen:
+            return seen[0]         # only open known findings on this case
+        return res
 
     def _impl_lines_body(self, case):
         miner, sol = pl()
@@ -541,38 +815,74 @@ class C11(Prop):
         wc = curve_series(case["curve"])
         with warnings.catch_warnings():
             warnings.simplefilter("ignore")
-            lc = build(case)
-            dmg = wc.fatigue.damage(lc)
-            line1 = " ".join(f2h(x) for x in list(np.asarray(dmg, dtype=float)) + [float(dmg.sum())])
+            # ONE object of each class for the whole case; another collective goes through them first
             me = wc.gassner_miner_elementary
             mh = wc.gassner_miner_haibach
+            fat = wc.fatigue
+            pre = pre_name(case)
+            if pre is not None:
+                plc = vbuild(case, pre)
+                me.gassner_cycles(plc)
+                mh.gassner_cycles(plc)
+            lc = build(case)
+            dmg = fat.damage(lc)
+            line1 = " ".join(f2h(x) for x in list(np.asarray(dmg, dtype=float)) + [float(dmg.sum())])
             line3 = f2h(fnum(me.finite_life_factor(sum(counts) + 1.0)))
             if degenerate(amps, counts):
-                return [line1, "degenerate", line3]
-            k1 = float(case["curve"]["k_1"])
-            if case["kind"] in ("range", "range_mean", "from_to") and case.get("loc", "mid") == "mid":
-                V = lc.cycles.solidity.haibach(k1)      # the registered accessor
+                line2 = "degenerate"
+                got = {}
+                for name, fn in (("A_ele", lambda: me.lifetime_multiple(lc)), ("A_hai", lambda: mh.lifetime_multiple(lc)),
+                                 ("NG_ele", lambda: me.gassner_cycles(lc)), ("NG_hai", lambda: mh.gassner_cycles(lc))):
+                    try:
+                        v = fnum(fn())
+                        got[name] = "nan" if v != v else "inf" if math.isinf(v) else repr(v)
+                    except (ValueError, ZeroDivisionError, FloatingPointError) as e:
+                        got[name] = type(e).__name__
+                if any(v not in ("nan", "inf", "ValueError", "ZeroDivisionError", "FloatingPointError") for v in got.values()):
+                    line2 = "degenerate-but-finite:" + ",".join(f"{k}={v}" for k, v in got.items())   # the model says: no lifetime
+                lines = [line1, line2, line3]
             else:
-                V = sol.haibach(lc, k1)
-            Ae = fnum(me.lifetime_multiple(lc))
-            Ah = fnum(mh.lifetime_multiple(lc))
-            NGe = fnum(me.gassner_cycles(lc))
-            NGh = fnum(mh.gassner_cycles(lc))
-            g = me.gassner(lc)
-            tot = sum(counts)
-            De = float(wc.fatigue.miner_elementary().damage(build(with_counts(case, [n * NGe / tot for n in counts]))).sum()) if math.isfinite(NGe) else math.inf
-            Dh = float(wc.fatigue.miner_haibach().damage(build(with_counts(case, [n * NGh / tot for n in counts]))).sum()) if math.isfinite(NGh) else math.inf
-            mocc = max(a for a, n in zip(amps, counts) if n > 0)
-            vals = [fnum(V), Ae, Ah, NGe, NGh, fnum(me.effective_damage_sum(lc)), fnum(mh.effective_damage_sum(lc)),
-                    fnum(me.finite_life_factor(tot)), fnum(g.ND), De, Dh, fnum(g.cycles(mocc)),
-                    float(wc.fatigue.miner_original().damage(lc).sum()), float(wc.fatigue.miner_haibach().damage(lc).sum()),
-                    float(wc.fatigue.miner_elementary().damage(lc).sum())]
-        return [line1, " ".join(f2h(x) for x in vals), line3]
+                k1 = float(case["curve"]["k_1"])
+                if case["kind"] in ("range", "range_mean", "from_to"):
+                    sa = lc.cycles.solidity                   # the registered accessor, every class location
+                    if case.get("loc", "mid") == "left":
+                        sa = sa.use_class_left()
+                    elif case.get("loc", "mid") == "right":
+                        sa = sa.use_class_right()
+                    V, Vf = sa.haibach(k1), sa.fkm(k1)
+                else:
+                    V, Vf = sol.haibach(lc, k1), sol.fkm(lc, k1)
+                Ae = fnum(me.lifetime_multiple(lc))
+                Ah = fnum(mh.lifetime_multiple(lc))
+                NGe = fnum(me.gassner_cycles(lc))
+                NGh = fnum(mh.gassner_cycles(lc))
+                g = me.gassner(lc)
+                tot = sum(counts)
+                De = float(fat.miner_elementary().damage(build(with_counts(case, [n * NGe / tot for n in counts]))).sum()) if math.isfinite(NGe) else math.inf
+                Dh = float(fat.miner_haibach().damage(build(with_counts(case, [n * NGh / tot for n in counts]))).sum()) if math.isfinite(NGh) else math.inf
+                mocc = max(a for a, n in zip(amps, counts) if n > 0)
+                vals = [fnum(V), Ae, Ah, NGe, NGh, fnum(me.effective_damage_sum(lc)), fnum(mh.effective_damage_sum(lc)),
+                        fnum(me.finite_life_factor(tot)), fnum(g.ND), De, Dh, fnum(g.cycles(mocc)),
+                        float(fat.miner_original().damage(lc).sum()), float(fat.miner_haibach().damage(lc).sum()),
+                        float(fat.miner_elementary().damage(lc).sum()), fnum(Vf)]
+                lines = [line1, " ".join(f2h(x) for x in vals), line3]
+            plan = seq_plan(case)
+            if plan:
+                lcs = {}
+                for _op, name, _a, _n in plan:
+                    if name not in lcs:
+                        lcs[name] = vbuild(case, name)         # built once, used by every call that names it
+                for kind in ("e", "h", "f"):
+                    obj = make_obj(kind, wc)
+                    ans = [call(obj, op, lcs[name], sum(n)) for op, name, _a, n in plan if op in OBJ_OPS[kind]]
+                    lines.append(" ".join([f2h(x) for x in ans] + ["|", kind] + [f2h(x) for x in state_of(obj)]))
+        return lines
 
     def compare(self, case, model_out, impl_out):
         if len(model_out) != len(impl_out):
             return f"length {len(model_out)} vs {len(impl_out)}"
-        names = ["damage", "miner", "finite_life_factor"]
+        names = ["damage", "miner", "finite_life_factor", "call sequence on one Miner-elementary object",
+                 "call sequence on one Miner-Haibach object", "call sequence on one fatigue object"]
         for i, (a, b) in enumerate(zip(model_out, impl_out)):
             ta, tb = a.split(), b.split()
             if len(ta) != len(tb):
@@ -597,14 +907,15 @@ class C11(Prop):
         sd = sd50(case["curve"])
         if len(occ) < 2:
             return None
-        if len(occ) == len(amps) and not (min(occ) < sd <= max(occ)):
+        if len(occ) == len(amps) and not (min(occ) < sd <= max(occ)) and not seq_plan(case):
             return None
-        return json.dumps({k: case[k] for k in ("kind", "members", "counts", "curve", "scale") if k in case}, sort_keys=True)
+        return json.dumps({k: case[k] for k in ("kind", "members", "counts", "curve", "scale", "layout", "seq", "pre") if k in case}, sort_keys=True)
 
     # ---------------------------------------------------------------- the property on the real code
     def _oracle_body(self, case):
         miner, sol = pl()
         wc = curve_series(case["curve"])
+        wc_before = wc.copy()
         members = case["members"]
         counts = eff_counts(case)
         m = len(members)
@@ -617,20 +928,46 @@ class C11(Prop):
             lc = build(case)
             got_amp = [float(x) for x in np.asarray(lc.amplitude, dtype=float)]
             if got_amp != amps:
-                return (f"amplitude accessor {got_amp} != class amplitudes {amps}", "amplitude-accessor")
+                return (f"amplitude accessor {got_amp} != class amplitudes {amps} (load scale {case.get('scale', 1.0)} applied by the collective's scale())", "amplitude-accessor")
             got_cyc = [float(x) for x in np.asarray(lc.cycles, dtype=float)]
             if got_cyc != counts:
                 return (f"cycles accessor {got_cyc} != counts {counts}", "cycles-accessor")
+            # --- "scaled to any load level": scaling returns a new collective and leaves the one it was asked of alone
+            sc = lc.scale(0.5)
+            sc_amp = [float(x) for x in np.asarray(sc.amplitude, dtype=float)]
+            if case.get("loc", "mid") == "mid" and sc_amp != [0.5 * a for a in amps]:
+                return (f"scale(0.5): amplitudes {sc_amp}, expected {[0.5 * a for a in amps]}", "amplitude-accessor")
+            again = [float(x) for x in np.asarray(lc.amplitude, dtype=float)], [float(x) for x in np.asarray(lc.cycles, dtype=float)]
+            if again != (amps, counts):
+                d = (f"collective.scale(0.5) changed the collective it was called on: amplitudes/cycles {(amps, counts)} before, {again} after "
+                     f"(kind {case['kind']}); every later damage / Gassner evaluation of that collective is at the wrong load level")
+                # the open finding is exactly: a LoadCollective FRAME takes over the scaled from/to values, cycles untouched
+                narrow = case["kind"] in ("collective", "collective_rm") and again == ([0.5 * a for a in amps], counts)
+                k = "collective-scale-modifies-operand" if narrow else "collective-modified"
+                if not self.known(k, d):
+                    return (d, k)
+                lc = build(case)
+            # ONE fatigue / Miner object of each class for the whole case (the way scripts use them); a different
+            # collective goes through them first
             fat = wc.fatigue
+            me = wc.gassner_miner_elementary
+            mh = wc.gassner_miner_haibach
+            pre = pre_name(case)
+            if pre is not None:
+                plc = vbuild(case, pre)
+                fat.damage(plc)
+                me.gassner_cycles(plc)
+                mh.gassner_cycles(plc)
             dmg = np.asarray(fat.damage(lc), dtype=float)
             D = float(dmg.sum())
+            if len(dmg) != m:
+                return (f"damage has {len(dmg)} entries for a collective of {m} members", "damage-value")
             if not np.all(np.isfinite(dmg)) or np.any(dmg < 0):
                 return (f"damage values {list(dmg)} not finite and non-negative", "damage-value")
             # --- additive over the members
-            cut = case.get("cut", 0)
-            if 0 < cut < m:
-                da = np.asarray(fat.damage(build(case, members[:cut], counts[:cut] if not case.get("unit_cycles") else None)), dtype=float)
-                db = np.asarray(fat.damage(build(case, members[cut:], counts[cut:] if not case.get("unit_cycles") else None)), dtype=float)
+            if variant(case, "a") is not None:
+                da = np.asarray(fat.damage(vbuild(case, "a")), dtype=float)
+                db = np.asarray(fat.damage(vbuild(case, "b")), dtype=float)
                 if list(da) + list(db) != list(dmg):
                     return (f"per-class damage of the parts {list(da)}+{list(db)} != of the whole {list(dmg)}", "additivity")
                 if not core.close(float(da.sum()) + float(db.sum()), D, rtol=1e-12):
@@ -643,7 +980,7 @@ class C11(Prop):
                     return (f"counts x {t}: damage {list(dt)} != {t} x {list(dmg)}", "proportionality")
             # --- independent of the member order
             perm = case.get("perm") or list(range(m))
-            dp = np.asarray(fat.damage(build(case, [members[i] for i in perm], [counts[i] for i in perm] if not case.get("unit_cycles") else None)), dtype=float)
+            dp = np.asarray(fat.damage(build(case, perm)), dtype=float)
             if list(dp) != [dmg[i] for i in perm]:
                 return (f"permuted members {perm}: damage {list(dp)} != permuted damage {[dmg[i] for i in perm]}", "order")
             if not core.close(float(dp.sum()), D, rtol=1e-12):
@@ -656,8 +993,22 @@ class C11(Prop):
                 for i in range(m):
                     if not (d_o[i] <= d_h[i] * (1 + 1e-12) and d_h[i] <= d_e[i] * (1 + 1e-12)):
                         return (f"class {i} (amplitude {amps[i]}): original {d_o[i]} <= Haibach {d_h[i]} <= elementary {d_e[i]} violated", "variant-order")
+            # --- the same through the data frame accessor: two curves, every row with ITS curve
+            if "curve2" in case and lc.cycles.index.is_unique:      # label-based pairing needs unique labels (pandas: join on a non-unique index is not implemented)
+                r = self._frame_of_curves(case, lc, amps, counts)
+                if r is not None:
+                    return r
             if degenerate(amps, counts):
-                return None
+                # no occupied class carries load: there is no lifetime to predict, the code must not invent one
+                for rule, mn in (("elementary", me), ("haibach", mh)):
+                    try:
+                        NG = fnum(mn.gassner_cycles(lc))
+                    except (ValueError, ZeroDivisionError, FloatingPointError):
+                        continue
+                    if math.isfinite(NG):
+                        return (f"Miner-{rule} Gassner cycles = {NG} for a collective without a loaded occupied class (amplitudes {amps}, counts {counts})",
+                                "degenerate-collective-finite-life")
+                return self._unchanged(wc, wc_before, {"e": me, "h": mh, "f": fat}, case["curve"])
             # --- Gassner cycles give damage one
             occ = [a for a, n in zip(amps, counts) if n > 0]
             mocc = max(occ)
@@ -673,29 +1024,34 @@ class C11(Prop):
                 if mocc < sd:
                     return f"gassner-{rule}-below-SD"
                 return f"gassner-{rule}-damage-not-one"
-            me = wc.gassner_miner_elementary
-            mh = wc.gassner_miner_haibach
             bad = []
-            for rule, mn, variant in (("elementary", me, fat.miner_elementary()), ("haibach", mh, fat.miner_haibach())):
-                NG = fnum(mn.gassner_cycles(lc))
+            NGs = {}
+            for rule, mn, variant_ in (("elementary", me, fat.miner_elementary()), ("haibach", mh, fat.miner_haibach())):
+                NG = NGs[rule] = fnum(mn.gassner_cycles(lc))
                 if not (math.isfinite(NG) and NG > 0):
                     bad.append((f"Miner-{rule} Gassner cycles = {NG} for a collective with occupied classes up to amplitude {mocc} (SD {sd})", klass(rule)))
                     continue
                 applied = build(with_counts(case, [n * NG / tot for n in counts]))
-                Dg = float(variant.damage(applied).sum())
+                Dg = float(variant_.damage(applied).sum())
                 if not abs(Dg - 1.0) <= GASSNER_TOL:
+                    first = "" if pre is None else f" [the Miner object had evaluated the collective '{pre}' of this case before]"
                     bad.append((f"Miner-{rule}: applying the collective for its Gassner cycles {NG} gives damage {Dg}, not 1 "
-                                f"(amplitudes {amps}, counts {counts}, curve {case['curve']}, knee of the 50 % curve {sd})", klass(rule)))
+                                f"(amplitudes {amps}, counts {counts}, curve {case['curve']}, knee of the 50 % curve {sd}){first}", klass(rule)))
             if bad:
+                # is it the object's history?  a fresh object of the same curve asked the same question
+                for rule, acc in (("elementary", "gassner_miner_elementary"), ("haibach", "gassner_miner_haibach")):
+                    fresh = fnum(getattr(curve_series(case["curve"]), acc).gassner_cycles(build(case)))
+                    if rule in NGs and not same(fresh, NGs[rule]):
+                        return (f"Miner-{rule} object that evaluated the collective '{pre}' first returns Gassner cycles {NGs[rule]} for the case's "
+                                f"collective, a fresh object returns {fresh}; " + "; ".join(b[0] for b in bad), "object-state")
                 return ("; ".join(b[0] for b in bad), bad[0][1])
             for rule, mn in (("elementary", me), ("haibach", mh)):
-                A = fnum(mn.lifetime_multiple(lc))
                 dm = fnum(mn.effective_damage_sum(lc))
                 if not (0.3 <= dm <= 1.0):
-                    return (f"Miner-{rule}: effective damage sum {dm} outside [0.3, 1] (lifetime multiple {A})", "effective-damage-sum")
+                    return (f"Miner-{rule}: effective damage sum {dm} outside [0.3, 1] (lifetime multiple {fnum(mn.lifetime_multiple(lc))})", "effective-damage-sum")
             # the Gassner-shifted curve (Miner elementary) predicts the same cycles and damage one
             g = me.gassner(lc)
-            NGe = fnum(me.gassner_cycles(lc))
+            NGe = NGs["elementary"]
             Ng = fnum(g.cycles(mocc))
             if not core.close(Ng, NGe, rtol=1e-10):
                 return (f"Gassner-shifted curve gives {Ng} cycles at the largest occupied amplitude {mocc}, gassner_cycles gives {NGe}",
@@ -704,11 +1060,104 @@ class C11(Prop):
             dg = float(g.damage(pd.Series({"amplitude": mocc, "cycles": Ng})).sum())
             if not abs(dg - 1.0) <= GASSNER_TOL:
                 return (f"Gassner-shifted curve: damage of its own cycle number is {dg}", "gassner-curve")
+            # --- explicit call sequences on one object, forwards and backwards, against fresh objects
+            r = self._sequences(case)
+            if r is not None:
+                return r
+            r = self._unchanged(wc, wc_before, {"e": me, "h": mh, "f": fat}, case["curve"])
+            if r is not None:
+                return r
+            after = [float(x) for x in np.asarray(lc.amplitude, dtype=float)], [float(x) for x in np.asarray(lc.cycles, dtype=float)]
+            if after != (amps, counts):
+                return (f"the collective was modified by the evaluations: amplitudes/cycles {after} after, {(amps, counts)} before", "collective-modified")
         # --- effective damage sum for arbitrary multiples
         for A in (1e-9, 0.5, 1.0, 16.0, 17.0, 1975.308641975309, 1e12, float(case.get("t", 2.0)) + 0.001):
             dm = miner.effective_damage_sum(A)
             if not (0.3 <= dm <= 1.0):
                 return (f"effective_damage_sum({A}) = {dm} outside [0.3, 1]", "effective-damage-sum")
+        return None
+
+    def _unchanged(self, wc, wc_before, objs, curve):
+        """Neither the curve the user handed in nor what the accessor objects hold has been written to."""
+        if list(wc.index) != list(wc_before.index) or any(not same(float(x), float(y)) for x, y in zip(wc, wc_before)):
+            return (f"the curve Series handed to the accessors was modified: {dict(wc_before)} -> {dict(wc)}", "operand-modified")
+        ref = state_of(make_obj("f", wc_before.copy()))
+        for kind, obj in objs.items():
+            st = state_of(obj)
+            if any(not same(x, y) for x, y in zip(st, ref)):
+                return (f"the {kind!r} accessor object holds {dict(zip(STATE_KEYS, st))} after the calls, {dict(zip(STATE_KEYS, ref))} when fresh (curve {curve})", "object-state")
+        return None
+
+    def _sequences(self, case):
+        """case['seq'] on ONE object of each class in the given and in the reverse order: every answer must be the answer
+        of a fresh object (and a freshly built collective) to that single call."""
+        plan = seq_plan(case)
+        if not plan:
+            return None
+        label = {"e": "Miner-elementary", "h": "Miner-Haibach", "f": "fatigue"}
+        fresh = {}
+        for kind in ("e", "h", "f"):
+            for i, (op, name, _a, n) in enumerate(plan):
+                if op in OBJ_OPS[kind]:
+                    fresh[kind, i] = call(make_obj(kind, curve_series(case["curve"])), op, vbuild(case, name), sum(n))
+        for order in (list(range(len(plan))), list(reversed(range(len(plan))))):
+            wc = curve_series(case["curve"])
+            lcs = {}
+            for kind in ("e", "h", "f"):
+                obj = make_obj(kind, wc)
+                before = state_of(obj)
+                done = []
+                for i in order:
+                    op, name, _a, n = plan[i]
+                    if op not in OBJ_OPS[kind]:
+                        continue
+                    if name not in lcs:
+                        lcs[name] = vbuild(case, name)
+                    got = call(obj, op, lcs[name], sum(n))
+                    if not same(got, fresh[kind, i]):
+                        return (f"one {label[kind]} object, calls so far {done}: {op}({name!r} collective) returns {got!r}, a fresh object returns "
+                                f"{fresh[kind, i]!r} (curve {case['curve']}, collective '{name}' = amplitudes/counts {vdata(case, name)})", "object-state")
+                    done.append(f"{op}({name})")
+                after = state_of(obj)
+                if any(not same(x, y) for x, y in zip(before, after)):
+                    return (f"one {label[kind]} object after the calls {done}: holds {dict(zip(STATE_KEYS, after))}, before {dict(zip(STATE_KEYS, before))}", "object-state")
+            for name, held in lcs.items():
+                a, n = vdata(case, name)
+                got = [float(x) for x in np.asarray(held.amplitude, dtype=float)], [float(x) for x in np.asarray(held.cycles, dtype=float)]
+                if got != (a, n):
+                    return (f"the collective '{name}' was modified by the calls: amplitudes/cycles {got} after, {(a, n)} before", "collective-modified")
+        return None
+
+    def _frame_of_curves(self, case, lc, amps, counts):
+        """`df.fatigue.damage`: a data frame of two curves (element_id 1, 2).  A collective with an element_id level is
+        paired element by element, any other collective is evaluated under both curves."""
+        c1, c2 = curve_series(case["curve"]), curve_series(case["curve2"])
+        wcs = pd.DataFrame([c1, c2], index=pd.Index([1, 2], name="element_id"))
+        try:
+            res = wcs.fatigue.damage(lc)
+        except KeyError as e:
+            idx = lc.cycles.index
+            if isinstance(idx, pd.MultiIndex) and idx.nlevels == 1 and e.args == (None,):
+                # Broadcaster defect (C13, audit D13-2): a one-level MultiIndex - what LoadHistogram.scale() returns for a
+                # plain range histogram - against a frame of curves
+                d = (f"data frame of curves x range histogram scaled by {case.get('scale', 1.0)} (scale() returns a one-level MultiIndex): "
+                     f"Broadcaster raises KeyError(None)")
+                k = "frame-of-curves-one-level-multiindex"
+                return None if self.known(k, d) else (d, k)
+            raise
+        ids = np.asarray(res.index.get_level_values("element_id"))
+        vals = np.asarray(res, dtype=float)
+        d = {1: np.asarray(c1.fatigue.damage(lc), dtype=float), 2: np.asarray(c2.fatigue.damage(lc), dtype=float)}
+        elem = layout(case).get("elem")
+        for e in (1, 2):
+            if elem is not None:
+                want = sorted(float(d[e][i]) for i in range(len(amps)) if elem[i] == e)
+            else:
+                want = sorted(float(x) for x in d[e])
+            got = sorted(float(x) for x in vals[ids == e])
+            if len(got) != len(want) or any(not core.close(x, y, rtol=1e-12, atol=1e-300) for x, y in zip(got, want)):
+                return (f"data frame of curves, element {e}: damage values {got} (sorted), the curve of that element alone gives {want} "
+                        f"(curves {case['curve']} / {case['curve2']}, amplitudes {amps}, counts {counts}, element ids {elem})", "frame-of-curves")
         return None
 
     # ---------------------------------------------------------------- shrinking
@@ -723,6 +1172,14 @@ class C11(Prop):
             mm = len(d["members"])
             d["perm"] = list(reversed(range(mm)))
             d["cut"] = mm // 2
+            if "layout" in c:
+                lay = dict(c["layout"])
+                for k in ("elem", "index"):
+                    if k in lay:
+                        lay[k] = lay[k][:i] + lay[k][i + 1:]
+                if "concat_at" in lay:
+                    lay["concat_at"] = mm // 2
+                d["layout"] = lay
             return d
         changed = True
         while changed and len(cur["members"]) > 1:
@@ -735,8 +1192,26 @@ class C11(Prop):
                         break
                 except Exception:
                     continue
-        for simpler in ({"scale": 1.0}, {"counts": [1.0 if n > 0 else 0.0 for n in cur["counts"]]}, {"t": 2.0}):
-            cand = dict(cur, **simpler)
+        simpler = [{"scale": 1.0}, {"counts": [1.0 if n > 0 else 0.0 for n in cur["counts"]]}, {"t": 2.0}]
+        for key in ("layout", "curve2", "seq"):
+            if key in cur:
+                simpler.append({key: None})
+        if cur.get("seq"):
+            for j in range(len(cur["seq"])):
+                simpler.append({"seq_drop": j})
+        for change in simpler:
+            cand = dict(cur)
+            if "seq_drop" in change:
+                if not cand.get("seq") or len(cand["seq"]) <= 2:
+                    continue
+                j = min(change["seq_drop"], len(cand["seq"]) - 1)
+                cand["seq"] = cand["seq"][:j] + cand["seq"][j + 1:]
+            else:
+                for k, v in change.items():
+                    if v is None:
+                        cand.pop(k, None)
+                    else:
+                        cand[k] = v
             try:
                 if still_fails(cand):
                     cur = cand
